@@ -133,7 +133,7 @@ Record aenv := mkEnv {
   e_mass : atom -> Q;            (* atom.mass, ions already corrected for electrons *)
   e_natmass : atom -> Q;         (* what natural_mass_ratio uses for this atom *)
   e_density : atom -> option Q;  (* atom.density, None = unknown *)
-  e_hillkey : atom -> string     (* _hill_key *)
+  e_sym : atom -> string         (* atom.symbol (D, T for the named hydrogen isotopes) *)
 }.
 
 Definition f_atoms (f : fobj) : dict := count_atoms (f_struct f).
@@ -175,16 +175,39 @@ Fixpoint str_ltb (a b : string) : bool :=
       else str_ltb a' b'
   end.
 
-Fixpoint insert_by {A} (key : A -> string) (x : A) (l : list A) : list A :=
+Fixpoint insert_lt {A} (ltb : A -> A -> bool) (x : A) (l : list A) : list A :=
   match l with
   | [] => [x]
-  | y :: r => if str_ltb (key y) (key x) then y :: insert_by key x r else x :: l
+  | y :: r => if ltb y x then y :: insert_lt ltb x r else x :: l
   end.
 (* inserting from the right, before the first element that is not smaller, keeps equal
    keys in input order (stable, like Python's sorted) *)
-Definition sort_by {A} (key : A -> string) (l : list A) : list A :=
-  fold_right (insert_by key) [] l.
+Definition sort_lt {A} (ltb : A -> A -> bool) (l : list A) : list A :=
+  fold_right (insert_lt ltb) [] l.
+
+(* _hill_key(a) = (0 if symbol in (C,H) else 1, symbol, isotope number or 0, charge),
+   compared as Python compares tuples *)
+Definition hill_flag (s : string) : Z := if (String.eqb s "C" || String.eqb s "H")%bool then 0%Z else 1%Z.
+(* lexicographic comparison of pairs, as Python compares tuples *)
+Definition lex_ltb {A B} (ltA : A -> A -> bool) (ltB : B -> B -> bool) (x y : A * B) : bool :=
+  if ltA (fst x) (fst y) then true else if ltA (fst y) (fst x) then false else ltB (snd x) (snd y).
+
+Definition hill_K := (Z * (string * (Z * (Z * Z))))%type.
+(* the last component (atomic number) never decides for atoms of a table, whose symbol
+   determines the element (Proofs/C19Proofs.v: symbols_unique); it makes the order total on
+   all triples *)
+Definition hill_tuple (sym : atom -> string) (a : atom) : hill_K :=
+  (hill_flag (sym a), (sym a, (aa a, (aq a, az a)))).
+Definition hill_ltK : hill_K -> hill_K -> bool :=
+  lex_ltb Z.ltb (lex_ltb str_ltb (lex_ltb Z.ltb (lex_ltb Z.ltb Z.ltb))).
+Definition hill_ltb (sym : atom -> string) (a b : atom) : bool :=
+  hill_ltK (hill_tuple sym a) (hill_tuple sym b).
 
 (* _convert_to_hill_notation(atoms): [(atoms[el], el) for el in sorted(keys, key=_hill_key)] *)
+(* counts are stored reduced (Qred) so that equal values are identical terms, as equal floats are *)
 Definition hill_struct (E : aenv) (d : dict) : struct :=
-  map (fun p => (snd p, FAtom (fst p))) (sort_by (fun p => e_hillkey E (fst p)) d).
+  map (fun p => (Qred (snd p), FAtom (fst p))) (sort_lt (fun p q => hill_ltb (e_sym E) (fst p) (fst q)) d).
+
+(* Formula.hill = formula(self.atoms) *)
+Definition f_hill (E : aenv) (f : fobj) : fobj :=
+  let s := hill_struct E (f_atoms f) in mkF s KTuple (init_density E s None None) None.
